@@ -132,12 +132,15 @@ def validate(prop, jobs=16):
             e2['expect'] = None
             tasks_cat.append((e2, [prop]))
     tasks_seed = [(d, prop) for d in seeds_for(prop)]
-    res_cat, res_seed = [], []
+    tasks_ben = [(f, prop) for f in benign_files()]
+    res_cat, res_seed, res_ben = [], [], []
     with cf.ProcessPoolExecutor(max_workers=jobs) as ex:
         f1 = [ex.submit(run_entry, t) for t in tasks_cat]
         f2 = [ex.submit(run_seed, t) for t in tasks_seed]
+        f3 = [ex.submit(run_benign, t) for t in tasks_ben]
         res_cat = [f.result() for f in f1]
         res_seed = [f.result() for f in f2]
+        res_ben = [f.result() for f in f3]
     fixtures = []
     summ = {'mutants_breaking_run': 0, 'mutants_breaking_correct': 0, 'mutants_benign_run': 0,
             'mutants_benign_correct': 0, 'seeds_run': 0, 'seeds_detected': 0, 'skipped': 0}
@@ -163,4 +166,33 @@ def validate(prop, jobs=16):
             summ['seeds_detected'] += 1
         else:
             fixtures.append({'name': 'seeded change %s' % name, 'ok': False, 'why': 'seeded breaking change not reported'})
+    summ['refactorings_run'] = 0
+    summ['refactorings_silent'] = 0
+    for name, status, text in res_ben:
+        if status == 'SKIP':
+            summ['skipped'] += 1
+            continue
+        summ['refactorings_run'] += 1
+        if status == 'OK':
+            summ['refactorings_silent'] += 1
+        else:
+            fixtures.append({'name': 'behaviour-preserving refactoring %s' % name, 'ok': False,
+                             'why': 'the check raised an alarm: ' + ' | '.join(
+                                 l for l in text.split('\n') if l.startswith(('VIOLATION', 'ANALYSIS')))[:300]})
     return summ, fixtures
+
+
+def benign_files():
+    import glob
+    return sorted(glob.glob(os.path.join(VERIF, 'benign', '*.diff')))
+
+
+def run_benign(args):
+    """A behaviour-preserving refactoring (differentially tested by its author): the check must stay silent."""
+    f, prop = args
+    name = os.path.basename(f)[:-5]
+    ov = patch_overrides(f)
+    if not ov:
+        return name, 'SKIP', 'patch does not apply to the current tree'
+    rc, out = _run_variant(prop, ov)
+    return name, ('OK' if rc == 0 else 'ALARM'), out
